@@ -976,10 +976,17 @@ Proof.
 Qed.
 
 (* ------------------------------------------------------------ constants, quote *)
-Lemma compile_const_eq f l tail c : self_eval c = true ->
+Lemma compile_const_eq f l tail c : self_eval c = true -> heap_datum c ->
   compile_expression (S f) l tail c =
   (dom v <- maybe_put_cell_m c; ret (emit (emit (emit_op l OMovImmediate) v) VAcc)).
-Proof. destruct c; try discriminate; reflexivity. Qed.
+Proof.
+  intros Hs Hd.
+  assert (E : compile_expression (S f) l tail c =
+    (if negb (cell_is_datum c) then fail E_OTHER else
+     dom v <- maybe_put_cell_m c; ret (emit (emit (emit_op l OMovImmediate) v) VAcc)))
+    by (destruct c; try discriminate Hs; reflexivity).
+  rewrite E, (heap_datum_is_datum c Hd). reflexivity.
+Qed.
 
 Lemma fwd_emit3 l o a b : fwd (emit (emit (emit_op l o) a) b) = fwd l ++ [VOp o; a; b].
 Proof. rewrite !fwd_emit, fwd_emit_op, <- !app_assoc. reflexivity. Qed.
@@ -1000,13 +1007,13 @@ Qed.
 
 Lemma cok_const c : wf_expr (EConst c) -> compile_ok (EConst c).
 Proof.
-  intros [Hs Hd]. apply (cok_datum (EConst c) c); [intros; apply compile_const_eq; exact Hs|exact Hd|].
+  intros [Hs Hd]. apply (cok_datum (EConst c) c); [intros; apply compile_const_eq; [exact Hs|exact Hd]|exact Hd|].
   intros rho r rho' HR. inversion HR; subst. auto.
 Qed.
 
 Lemma cok_quote d : wf_expr (EQuote d) -> compile_ok (EQuote d).
 Proof.
-  intros Hd. apply (cok_datum (EQuote d) d); [intros; apply compile_quote_form|exact Hd|].
+  intros Hd. apply (cok_datum (EQuote d) d); [intros; apply compile_quote_form; exact Hd|exact Hd|].
   intros rho r rho' HR. inversion HR; subst. auto.
 Qed.
 
